@@ -132,7 +132,7 @@ def _cost_case(case, data: bytes, tmpdir: str):
         os.environ["TMPDIR"] = tmpdir
         import tempfile
         tempfile.tempdir = tmpdir
-        _child_limits()
+        _child_limits(cpu=int(case.get("cpu") or CPU_SOFT))
         extractor = get_extractor("x." + case["ext"])
         ru0 = resource.getrusage(resource.RUSAGE_SELF).ru_maxrss
         tracemalloc.start()
